@@ -428,4 +428,6 @@ def run(ctx):
     _c18a.rule_auxv(ctx, R="C13/auxv")
     from rules import c04 as _c04mm
     _c04mm.rule_mapping_list_mutators(ctx)
-
+    # the small accessors and pass-through wrappers the rules above look through by name return what their names say (rules/accessors.py)
+    from rules import accessors as _acc
+    _acc.rule_accessors(ctx, "C13")
